@@ -6,6 +6,8 @@ CONSTANTS
   MaxConns = 4
   MaxT6 = 1
   MaxPk = 5
+  RRs = {"cpr0"}
+  ScopeSensitive = FALSE
   Faults = {"wfail", "rexit", "dialfail", "tick"}
 VIEW View
 INVARIANTS NoDup Conservation HeldAreInitials BatchOrdered CompleteAtEnd NameRoutes OneTransport TypeOK
